@@ -8,10 +8,14 @@ CONFIG = {
         "shards": {"quick": 8, "thorough": 16, "search": 8},
         "timeout_s": 1500,
         "rule": "descriptor sets from (a) /repo's own compiled protos (test.foo.v1, test.schema.v1, j5.schema.v1, j5.client.v1, "
-                "j5.list.v1 … every 12th op) and (b) generated raw proto3 sets in the J5-supported subset (1-3 files, cross-package "
+                "j5.list.v1 … every 12th op), (c) generated j5s bundles (j5sgen: objects, oneofs, enums, services, topics, entities, "
+                "flatten, cross-package imports, inline types) compiled by the REAL j5s compiler (every 5th op; the op carries the "
+                "compiled descriptors) and (b) generated raw proto3 sets in the J5-supported subset (1-3 files, cross-package "
                 "and sub-package refs, nested messages and enums, self/mutual recursion, oneof wrappers, exposed oneofs, maps, "
                 "repeated, proto3 optional, every supported scalar kind, well-known and j5 types, validate / list / j5 annotations "
-                "consistent with the field, enum option info + info fields, psm markers, any-membership, comments) -> "
+                "consistent with the field, enum option info + info fields, psm markers, any-membership, comments); in every third "
+                "multi-package set only the last root package is a direct package of the image, the others — sub-packages included — "
+                "are exported as indirect packages as far as they are referenced -> "
                 "SchemaSetFromFiles -> structure.APIFromImage -> (optionally through the wire) -> PackageSetFromSourceAPI -> "
                 "ToJ5Root again. Every 4th op is an `import` op: the exported API with ONE mutation outside the export image "
                 "(inline object / oneof / enum, unset field or root type, absent items / item_schema / property schema, unknown "
